@@ -99,8 +99,12 @@ func GenEnv(r *Rng, d *Dump, userFns bool) Env {
 		return ""
 	}
 	num := func() float64 {
-		if r.Chance(1, 8) {
+		switch r.Intn(8) {
+		case 0:
 			return math.Float64frombits(r.U64())
+		case 1:
+			// a double of moderate magnitude with a full significand (decimal output of up to 17 digits)
+			return math.Float64frombits(uint64(1023-60+r.Intn(120))<<52|r.U64()&(1<<52-1)) * float64(1-2*r.Intn(2))
 		}
 		return Pick(r, SpecialNums)
 	}
